@@ -28,5 +28,5 @@ Extraction "mmdmodel.ml"
   OpmlModel.xml_as_text OpmlModel.export_tags OpmlModel.import_levels OpmlModel.properly_nested
   MetaSwitchModel.process MetaSwitchModel.is_control MiniC.has_flag
   TableAlignModel.record TableAlignModel.colspec Bounds.table_alignment_size Bounds.record_limit
-  SpecRender.render SpecRender.spell
+  SpecRender.render_doc SpecRender.spell_doc
   BlockComp.bc_F BlockComp.drun BlockLang.dstep BlockLang.FIN ParserTables.NT_block.
